@@ -55,7 +55,7 @@ def trig_early_suite_not_first(spec):
     return bool(cs.get("early")) and bool(cs.get("allow_early_suite_not_first")) and bool(cs.get("offered")) and cs["offered"][0] != cs["suite"]
 
 
-TRIGGERS = {"zero_length_dcid_packet_spells_another_cid": trig_cid_coincidence, "early_data_and_selected_suite_not_offered_first": trig_early_suite_not_first}
+TRIGGERS = {"early_data_and_selected_suite_not_offered_first": trig_early_suite_not_first}
 
 
 def f10_probe_specs():
@@ -74,7 +74,7 @@ def f31_probe_specs():
     for seed in range(3000):
         steps = [{"op": "ncid", "d": 0, "len": 1}] + [{"op": "data", "d": 0, "pk": [{"fr": [["stream", 0, 5, None, False, True, None]], "gap": 0, "pnl": 0}]}
                                                       for _ in range(6)]
-        cs = {"kind": "quic", "seed": seed, "suite": 0x1301, "s_scid_len": 0, "c_scid_len": 8, "steps": steps, "allow_cid_coincidence": True}
+        cs = {"kind": "quic", "seed": seed, "suite": 0x1301, "s_scid_len": 0, "c_scid_len": 8, "steps": steps}
         if "cid_coincidence" in quicref.QuicConn(cs).features:
             out.append({"conns": [cs], "tseed": 1})
             if len(out) == 3:
@@ -123,7 +123,7 @@ def stages(tier):
         Stage("grid", evaluate, specs=grid_specs()),
         Stage("histories", evaluate, strategy=lambda t: strategies.single_quic_scenario(max_steps=12 if t == "quick" else 40, zero_cid=True, early=True),
               examples=4000 if quick else 60000),
-        Stage("probe-F31", evaluate, specs=f31_probe_specs(), probe="F31"),
+        Stage("cid-coincidence", evaluate, specs=f31_probe_specs()),
         Stage("probe-F10", evaluate, specs=f10_probe_specs(), probe="F10"),
     ]
 
